@@ -21,11 +21,11 @@ from mc.explore import Chooser, explore_deviations
 ID = "C15"
 LEVEL = "model_checking"
 
-OPS = ["insert", "insert_at", "mutate", "delete", "mutate_value", "mutate_call", "change_call",
+OPS = ["insert", "insert_at", "mutate", "mut_insert", "mut_delete", "mut_change", "delete", "mutate_value", "mutate_call", "change_call",
        "change_field", "change_type", "chop", "remove_unused"]
 MODULES_QUICK = ["containers", "shapes", "numeric"]
 MODULES_THOROUGH = ["containers", "shapes", "numeric", "strings", "raising"]
-LENGTH_BOUND_OPS = ("mutate",)
+LENGTH_BOUND_OPS = ("mutate", "mut_insert")
 
 
 def _classify(op, sig):
@@ -173,17 +173,17 @@ def run(ctx):
     jobs = []
     seqs = [(list(s), bounds[n]) for n in sorted(bounds) for s in itertools.product(OPS, repeat=n)]
     for module in modules:
-        for chrom_len in (4, 40):
+        for chrom_len in (3, 40):
             groups: dict = {}
             for s, b in seqs:
-                if chrom_len == 4 and not ({"mutate", "insert", "insert_at"} & set(s)):
+                if chrom_len == 3 and not ({"mutate", "mut_insert"} & set(s)):
                     continue  # the small length bound only matters for growing operations
                 groups.setdefault((s[0], len(s)), []).append((s, b))
             for group in groups.values():
                 for i in range(0, len(group), 24):
-                    jobs.append((module, chrom_len, base_n, group[i:i + 24], max_execs))
+                    jobs.append((module, chrom_len, 1 if chrom_len == 3 else base_n, group[i:i + 24], max_execs))
     par.run_shards("props.c15_wellformed:shard", jobs, ctx.workers, ctx)
-    xjobs = [(m, cl, 1 if quick else 2) for m in modules for cl in (4, 40)]
+    xjobs = [(m, cl, 1 if quick else 2) for m in modules for cl in (3, 40)]
     par.run_shards("props.c15_wellformed:shard_crossover", xjobs, ctx.workers, ctx)
     capped = ctx.col.counters.get("capped_scripts", 0)
     ctx.exhaustive = capped == 0
@@ -198,7 +198,7 @@ def run(ctx):
                 f"vacuous: only {len(ctx.col.sets.get('ops_with_effect', ()))} operations had an effect")
     ctx.require(len(ctx.col.sets.get("states", ())) > 500, "vacuous: too few distinct test cases")
     ctx.rule = (f"scripts = 2 factory insertions followed by every operation sequence of length <= {max(bounds)} over "
-                "the 11-operation alphabet, on each corpus module with chromosome_length in {4, 40}; "
+                "the {len(OPS)}-operation alphabet, on each corpus module with chromosome_length in {3, 40}; "
                 f"every execution with <= d non-default RNG answers, d by script length {bounds} "
                 f"(cap {max_execs} executions per script); "
                 "plus every splice of every ordered pair of enumerated test cases at every position pair; "
